@@ -28,7 +28,7 @@ ODD = ["_", "__", "___", "_1", "_0", "_9", "__x", "__x__", "_hash", "_h", "_buf"
        "__fields__", "_name", "__name__", "__doc__", "__module__", "__slots__", "lookup", "__align__", "__anonymous__", "__compiled__",
        "_read", "_write", "commit", "__bytes__", "__repr__", "_proxify", "__ne__", "__str__", "__qualname__", "_self", "self_", "__default__",
        "_type", "_T", "_2", "__1", "_a", "__a"]
-# PENDING-FINDING (not used): a field named `__dict__` or `__weakref__` cannot be constructed at all (TypeError / AttributeError from
+# known finding F19 (these names are exercised by props/c17.py's F19 cases, not here): a field named `__dict__` or `__weakref__` cannot be constructed at all (TypeError / AttributeError from
 # the generated __init__), the same family as known finding F19 but not in its list of names.
 INTS = {"uint8": (1, False), "int8": (1, True), "uint16": (2, False), "int16": (2, True), "uint32": (4, False), "int32": (4, True),
         "uint64": (8, False), "int64": (8, True), "uint24": (3, False), "int24": (3, True)}
@@ -151,11 +151,11 @@ def run(env, res, viol, rnd, reps):
     dc = impl.dc()
 
     def anon_ok(nm):
-        # PENDING-FINDING: a field of an ANONYMOUS member whose name is also an attribute of a structure class or its metaclass
+        # known finding F19 (extended): a field of an ANONYMOUS member whose name is also an attribute of a structure class or its metaclass
         # (`__compiled__`, `__fields__`, `__bool__`, `__name__`, `lookup`, `_read`, `_write`, `commit`, ...) is overwritten by / overwrites that
         # class attribute (the folded fields are installed as class-level properties): equality, bool or even loading break on the
         # unmodified tree.  Reported; such names are used for named members only until it is decided.
-        if False:  # PENDING-FINDING
+        if False:  # F19 territory: not generated here
             return True
         return not hasattr(sample_cls, nm) and not hasattr(type(sample_cls), nm)
 
